@@ -20,7 +20,6 @@ import (
 // on logical steps by the lap monitor (vf_c18_kit_test.go): a full lap of the ring without a
 // replica being added means the selection loop's state repeats forever.
 
-
 type vfc19Cfg struct {
 	Variant  string   `json:"variant"` // ketama | hashmod | ketama+shuffle
 	Layout   []int    `json:"zone_sizes"`
